@@ -2,8 +2,8 @@
    (fsic/core/linkers.py:36-129, 224-346, 424-529, 579-595).  Definitions only.
    Generic in the number type: no fact of arithmetic is used by any theorem about this file.
    Like BaseModel.solve_t the linker rejects min_iter > max_iter (fix 97423a0) and a period without room for its
-   lags / leads (fix a0fbb5c); unlike it, it has no error policy (non-finite values are simply compared), wraps no
-   exception, and never reads `offset`: all of that is mirrored here as it stands. *)
+   lags / leads (fix a0fbb5c) and honours `offset` (fix 6298cba); unlike it, it has no error policy (non-finite values
+   are simply compared) and wraps no exception: all of that is mirrored here as it stands. *)
 From Coq Require Import ZArith List Bool.
 Import ListNotations.
 Require Import PyBase Solver.
@@ -226,7 +226,7 @@ Section Linker.
   Definition sel_ids (sel : option (list sid)) (s : lstate) : list sid :=
     match sel with None => map fst (l_subs s) | Some l => l end.     (* default: every key, insertion order *)
 
-  (* BaseLinker.solve_t after its two guards.  `offset o` is accepted and never read (finding #8). *)
+  (* BaseLinker.solve_t after its two guards and after the offset seeding (this part never reads `offset o`). *)
   Definition linker_solve_t_body (sel : option (list sid)) (o : opts) (t : Z) (s : lstate) : lstate * lout :=
     let ids := sel_ids sel s in
     match get_check_values ids t s with              (* current_values, taken before zeroing and the pre-hook *)
@@ -251,12 +251,49 @@ Section Linker.
     let tc := if t <? 0 then t + Z.of_nat n else t in
     ((0 <=? tc) && (tc <? Z.of_nat (lags d))) || ((Z.of_nat n - Z.of_nat (leads d) <=? tc) && (tc <? Z.of_nat n)).
 
+  (* ---- offset (fix 6298cba): `if offset:` — t_check + offset outside the span -> IndexError; every listed id must be a
+     submodel (KeyError) before anything is written; then the endogenous rows of the linker's own core, and of every listed
+     submodel in the order listed, take their period-t value from period t + offset.  All containers share the core's span
+     length (the constructor enforces equal spans).  A t outside the span that got past the feasibility guard fails at the
+     first write (IndexError) — if there is any endogenous row to write. ---- *)
+  Definition seed_comp (c : comp) (p q : nat) : comp := with_cvals c (copy_endo num zero (c_desc c) (vals_of (c_st c)) p q).
+  Fixpoint seed_subs (ids : list sid) (p q : nat) (subs : list (sid * comp)) : list (sid * comp) :=
+    match ids with
+    | [] => subs
+    | id :: r => match find_sub id subs with
+                 | Some c => seed_subs r p q (put_sub id (seed_comp c p q) subs)
+                 | None => seed_subs r p q subs
+                 end
+    end.
+  Definition seeded (ids : list sid) (p q : nat) (s : lstate) : lstate :=
+    mkL (seed_comp (l_core s) p q) (seed_subs ids p q (l_subs s)) (l_log s).
+  Definition has_endo (ids : list sid) (s : lstate) : bool :=
+    negb (match endo (c_desc (l_core s)) with [] => true | _ => false end) ||
+    existsb (fun id => match find_sub id (l_subs s) with
+                       | Some c => negb (match endo (c_desc c) with [] => true | _ => false end)
+                       | None => false end) ids.
+  Definition linker_seed (ids : list sid) (o : opts) (t : Z) (s : lstate) : lstate * option exn :=
+    if offset o =? 0 then (s, None) else
+    let n := length (status (c_st (l_core s))) in
+    let tc := if t <? 0 then t + Z.of_nat n else t in
+    let qz := tc + offset o in
+    if (qz <? 0) || (Z.of_nat n <=? qz) then (s, Some IndexError) else
+    if existsb (fun id => match find_sub id (l_subs s) with None => true | Some _ => false end) ids then (s, Some KeyError) else
+    match py_pos n t with
+    | None => if has_endo ids s then (s, Some IndexError) else (s, None)
+    | Some p => (seeded ids p (Z.to_nat qz) s, None)
+    end.
+
   (* BaseLinker.solve_t: min_iter > max_iter -> ValueError (fix 97423a0), then the feasibility guard -> IndexError
-     (fix a0fbb5c) — both before the selection is looked at and before anything is written — then the body *)
+     (fix a0fbb5c) — both before the selection is looked at and before anything is written — then the offset seeding
+     (fix 6298cba), then the body on the seeded state *)
   Definition linker_solve_t_M (sel : option (list sid)) (o : opts) (t : Z) (s : lstate) : lstate * lout :=
     if max_iter o <? min_iter o then (s, LRaise (LExn ValueError))
     else if linker_infeasible (c_desc (l_core s)) (length (status (c_st (l_core s)))) t then (s, LRaise (LExn IndexError))
-    else linker_solve_t_body sel o t s.
+    else match linker_seed (sel_ids sel s) o t s with
+         | (_, Some e) => (s, LRaise (LExn e))
+         | (s0, None) => linker_solve_t_body sel o t s0
+         end.
 
   (* BaseLinker.solve over the positions delivered by iter_periods (computed before the first solve):
      the only min_iter>max_iter guard of the linker lives here *)
@@ -311,7 +348,7 @@ Fixpoint ctor_loop (base : pspan) (rest : list (sid * subinfo)) (lg ld : Z) : ou
       else ctor_loop base r (Z.max lg (si_LAGS c)) (Z.max ld (si_LEADS c))
   end.
 
-(* returns (span, lags, leads) of the new linker *)
+(* the constructor past the name test: returns (span, lags, leads) of the new linker *)
 Definition linker_ctor_M (subs : list (sid * subinfo)) (span : option pspan) : outcome (pspan * Z * Z) :=
   match subs with
   | [] => Ret (match span with Some sp => sp | None => mkSpan SList [] end, 0, 0)
@@ -324,6 +361,11 @@ Definition linker_ctor_M (subs : list (sid * subinfo)) (span : option pspan) : o
                 end
       end
   end.
+
+(* since fix f5ef8bd: `if name in submodels: raise DuplicateNameError` — first of all (before the span= test and the span
+   comparison).  `name` = the linker's own name (default '_'), modelled as an identifier like the submodels' keys. *)
+Definition linker_init_M (name : sid) (subs : list (sid * subinfo)) (span : option pspan) : outcome (pspan * Z * Z) :=
+  if existsb (Nat.eqb name) (map fst subs) then Raise DuplicateNameError else linker_ctor_M subs span.
 
 Arguments mkComp {num}. Arguments c_desc {num}. Arguments c_st {num}.
 Arguments mkL {num}. Arguments l_core {num}. Arguments l_subs {num}. Arguments l_log {num}.
